@@ -107,6 +107,32 @@ theorem reset_restarts (r other : Record) (h : 1 < other.ttl) :
     r.resetTtl other = Record.new r.name r.ty r.cls r.flush other.ttl r.rdata other.created := by
   simp [resetTtl, Record.new, h]
 
+/-- **The restart, spelled out for any history**: whatever happened to the cached record before
+    (any number of marks used up, `refresh_no_more`, an expiry brought forward by a cache
+    flush), after a fresh copy with TTL `ttl2 > 1` received at `t2` the answers of
+    `refresh_maybe` to any sequence of observation times are those of the full schedule counted
+    from `t2`: again up to four re-queries, at 80 / 85 / 90 / 95 % of the NEW lifetime, and the
+    record is used exactly until `t2 + 1000·ttl2`. -/
+theorem refresh_schedule_after_reset (r other : Record) (h : 1 < other.ttl) (times : List Nat) :
+    (runRefresh (r.resetTtl other) times).1 = specRun other.created other.ttl 0 times ∧
+    fired (runRefresh (r.resetTtl other) times).1 ≤ 4 ∧
+    ∀ now, (r.resetTtl other).isExpired now = true ↔ now ≥ other.created + 1000 * other.ttl := by
+  rw [reset_restarts r other h]
+  refine ⟨(refresh_schedule _ _ _ _ _ _ _ (by omega) times).1,
+    refresh_at_most_four _ _ _ _ _ _ _ (by omega) times, fun now => ?_⟩
+  simp [Record.new, isExpired, expTime]
+  omega
+
+/-- a record whose four marks are used up and whose end was brought forward fires again at 80 %
+    of the new lifetime after a fresh copy (TTL 10 s received at 50 000 ms: 58 000 ms) -/
+example :
+    let old : Record := { name := [], ty := 1, cls := 1, flush := true, ttl := 120, created := 0,
+                          expires := 1000, refresh := 120000, rdata := .txt [] }
+    let fresh : Record := { old with ttl := 10, created := 50000 }
+    (runRefresh (old.resetTtl fresh) [57999, 58000, 58001, 58500, 59000, 59500, 59999, 60000]).1 =
+      [false, true, false, true, true, true, false, false] := by
+  decide
+
 /-- A copy with TTL 0 or 1 (a goodbye) restarts only the lifetime: the record lives until
     `t2 + 1000·ttl2` and is never refreshed again. -/
 theorem reset_goodbye (r other : Record) (h : other.ttl ≤ 1) :
